@@ -716,6 +716,84 @@ def gen_history(rng, solvers=("auto", "dfs", "sat"), big=False):
     return {"history": hist}
 
 
+BIG_BASES = [2 ** 53, -(2 ** 53), 2 ** 53 - 2, 2 ** 62, -(2 ** 62), 10 ** 18, -(10 ** 18), 2 ** 63, 2 ** 64 + 1, 3 * 2 ** 54]
+
+
+def gen_numeric_edge(rng):
+    """Small domains (2-5 values) located at huge values (+-2**53 +- k, +-2**62, +-10**18, ...), mixed with ordinary
+    ones; constants of such magnitudes in linear ==/!=, eq/ne_const, sum targets, no_overlap/cumulative starts.
+    Coefficients stay small whenever the encoder needs partial-sum auxiliaries (their range grows with
+    |coefficient| x width); two-term relations also get huge coefficients.  Everything is exact integer arithmetic."""
+    V = lambda i: ["v", i]  # noqa: E731
+    C = lambda n: ["c", n]  # noqa: E731
+    nv = rng.choice([2, 2, 3, 3, 4])
+    base = rng.choice(BIG_BASES) + rng.randint(-3, 3)
+    same_place = rng.random() < 0.6  # all huge variables in one neighbourhood (needed for time-indexed kinds)
+    vars_ = []
+    for _ in range(nv):
+        if rng.random() < 0.75:
+            b = base if same_place else rng.choice(BIG_BASES) + rng.randint(-3, 3)
+            lo = b + rng.randint(-2, 2)
+            vars_.append([lo, lo + rng.choice([1, 2, 3, 4])])
+        else:
+            vars_.append(list(rng.choice(DOMAINS[:9])))
+    plant = [rng.randint(lb, ub) for lb, ub in vars_]
+    cons = []
+    for _ in range(rng.choice([1, 1, 2])):
+        kind = rng.choice(["rel2", "rel2", "rel2k", "const", "sum", "opsum", "alldiff", "noov", "cum", "relbigcoef"])
+        x, y = rng.sample(range(nv), 2)
+        op = "==" if rng.random() < 0.6 else "!="
+        slack = 0 if rng.random() < 0.7 else rng.choice([-1, 1, 2])
+        if kind == "rel2":
+            c = plant[x] - plant[y] + slack
+            form = rng.randrange(5)
+            if form == 0:
+                con = [op, V(x), ["+", V(y), C(c)]]
+            elif form == 1:
+                con = [op, ["-", V(x), V(y)], C(c)]
+            elif form == 2:
+                con = [op, ["+", C(c), V(y)], V(x)]
+            elif form == 3:
+                con = [op, ["+", V(x), C(-c)], V(y)]
+            else:
+                con = [op, ["+", V(x), V(y)], C(plant[x] + plant[y] + slack)]
+        elif kind == "rel2k":
+            k = rng.choice([2, 3, -2])
+            con = [op, ["*", C(k), V(x)], ["+", ["*", V(y), C(k)], C(k * (plant[x] - plant[y]) + slack)]]
+        elif kind == "relbigcoef":
+            k = rng.choice([2 ** 53 + 1, -(2 ** 62), 10 ** 18 + 7])
+            con = [op, ["*", V(x), C(k)], ["+", ["*", C(k), V(y)], C(k * (plant[x] - plant[y]) + slack)]]
+        elif kind == "const":
+            con = [op, V(x), C(plant[x] + slack)] if rng.random() < 0.5 else [op, C(plant[x] + slack), V(x)]
+        elif kind == "sum":
+            vs = pick_vars(rng, nv, rng.randint(1, 4), distinct=rng.random() < 0.7)
+            con = [rng.choice(["sumeq", "sumle", "sumge"]), vs, sum(plant[i] for i in vs) + slack]
+        elif kind == "opsum" and nv >= 3:
+            a, b, c3 = rng.sample(range(nv), 3)
+            e = ["+", ["+", V(a), V(b)], V(c3)] if rng.random() < 0.5 else ["+", V(a), ["+", ["*", C(2), V(b)], V(c3)]]
+            tot = eval_expr(e, plant)
+            con = [op, e, C(tot + slack)] if rng.random() < 0.6 else [op, C(tot + slack), e]
+        elif kind == "alldiff":
+            con = ["alldiff", pick_vars(rng, nv, rng.randint(2, nv), distinct=True)]
+        elif kind == "noov":
+            vs = pick_vars(rng, nv, rng.randint(2, min(3, nv)), distinct=True)
+            con = ["noov", vs, [rng.choice([0, 1, 2, 2 ** 53, 10 ** 18]) for _ in vs]]
+        elif kind == "cum" and same_place:
+            vs = [i for i in range(nv) if abs(vars_[i][0] - base) <= 8][:3]
+            if len(vs) < 1:
+                continue
+            con = ["cum", vs, [rng.choice([0, 1, 2, 3]) for _ in vs], [rng.choice([0, 1, 2]) for _ in vs], rng.choice([1, 2, 3])]
+        else:
+            continue
+        if _buildable(vars_, con) is not None:
+            cons.append(con)
+    hints = None
+    if rng.random() < 0.2:
+        i = rng.randrange(nv)
+        hints = {f"x{i}": plant[i] if rng.random() < 0.7 else vars_[i][1] + 2 ** 53}
+    return vars_, cons, hints
+
+
 def gen_scaled(rng):
     """Shape family with EQUAL non-unit coefficients on two variables and constants that are / are not
     divisible by the coefficient: k*x +- c ~ k*y +- d, k*(x - y) ~ c, k*x - k*y ~ c, (x+x) ~ (y+y) + c,
